@@ -18,7 +18,7 @@
 EXTENDS Naturals, Sequences, FiniteSets
 
 Classes == {"ascii", "unicode", "empty", "emailLower", "emailMixed", "digits", "long", "b64like", "jsonlike", "control",
-            "quotes", "spaces", "dollarInside", "date", "oid", "bindata", "percent", "priorCiphertext"}
+            "quotes", "spaces", "dollarInside", "date", "oid", "bindata", "bindataLoose", "percent", "priorCiphertext"}
           \* percent: printf verbs in the text; priorCiphertext: the string is itself a ciphertext produced earlier under the same key
 Slots == {"filterField", "inArray", "updateSet", "updatesPipeU", "documents", "match", "exprArray", "searchQuery", "famPipe",
           "origFilter", "cmdFilter", "deletesQ", "lookupSub"}
